@@ -103,6 +103,7 @@ class AttackGraphNode:
             {}
         )
 
+        copied_node.ttc = copy.deepcopy(self.ttc, memo)
         copied_node.tags = copy.deepcopy(self.tags, memo)
         copied_node.attributes = copy.deepcopy(self.attributes, memo)
         copied_node.extras = copy.deepcopy(self.extras, memo)
